@@ -381,3 +381,24 @@ def check_C06(res, replay):
                     "bent / trigonal / pyramidal / tetrahedral / square-planar / trigonal-bipyramidal / octahedral arrangements — axis-aligned, randomly rotated+translated and distorted (a "
                     "fraction per run in quick, all in thorough); linear triatomics and polyynes on an axis and rotated; planar 3-8 rings; random molecules, distorted, united fragments. Each: "
                     "build UFF and RB, energy, gradient, optimise under catch_unwind; fail on panic, non-finite values or |E| > 1e6 kcal/mol per atom")
+
+
+# ---------------------------------------------------------------------------------------------------- C18
+
+def check_C18(res, replay):
+    res.trusted = TB_COMMON + ["construction models of C09-C11 (bit-exact correspondences)", "Mathlib (sums, the tail bound)", "axioms audited: subset of {propext, Classical.choice, Quot.sound}"]
+    res.assumptions = ["separation enters as: the candidate lists never cross (no atom of one group within 1.3 x radii sum of an atom of the other)",
+                       "formal charges are per-atom because the molecular charge is 0 in every constructor (the shared remaining-charge counter is then never touched)",
+                       "energy additivity is over the reals; the real code is checked to the van der Waals tail 2 D (sigma/r)^6 summed over cross pairs plus 1e-9 relative rounding"]
+    L.run_translators(["tables", "terms", "uff"], res)
+    L.prove(["OptRs.Props.C18", "OptRs.Props.C09", "OptRs.Props.C08"], res, BUILD_AUDIT + ["OptRs.Lemmas.FFReal"])
+    if L.build_harness(res) and L.build_model(res):
+        for stream, model, io in (("build", "build", True), ("perceive", "perceive", True), ("fragments", "-", False)):
+            lines = harness_lines(stream, [], res)
+            if lines is not None:
+                L.compare_lines(lines, model, res, stream, ignore_oracle=io)
+        res.cases += int(res.stats.get("fragments.unions_checked", "0"))
+    return L.finish(res, "proof", "lake build OptRs.Props.C18 OptRs.Props.C09 OptRs.Props.C08 + #print axioms audit",
+                    "pairs of random molecules (each <= ~14 atoms, distorted), the second rotated and placed 50-10000 A away in a random direction, both concatenation orders: "
+                    "connectivity of the union vs union of the parts' (index-shifted) plus all cross pairs; assigned types; E(A+B) vs E(A)+E(B) within the cross van der Waals tail; forces; "
+                    "plus the perception and construction correspondences the theorems rest on")
